@@ -687,6 +687,9 @@ func ParseSpec(pkg, file, text string) (sf *SpecFile, err error) {
 					p.expect("(")
 					p.accept("*")
 					recv := p.next().v
+					if p.accept(".") { // pkg.Type: ghost field on a type of another package (trusted specs)
+						recv = recv + "." + p.next().v
+					}
 					p.expect(")")
 					p.expect(".")
 					name := p.next().v
